@@ -852,16 +852,30 @@ description `d` of a real endpoint with the true codecs of its field types, what
 satisfies `macroAccepts`, `testsPass`, `inModel`, the header-name `Nodup` and has the G17 shape
 exactly when the extracted description `g` with the identity codecs does (`d.erase = g.erase`:
 same method, authentication, history, and field by field the same name, kind, header constant and
-`Option`-ness). Stated for requests; the response predicates are built the same way. -/
-theorem real_endpoint_codecs_irrelevant (d g : ReqDesc) (h : d.erase = g.erase) :
-    d.macroAccepts = g.macroAccepts ∧ d.testsPass = g.testsPass ∧ d.inModel = g.inModel
-    ∧ d.g17Fields = g.g17Fields
-    ∧ d.headerFields.map (·.header) = g.headerFields.map (·.header) ∧ d.history = g.history := by
-  obtain ⟨a1, a2, a3, a4, a5, a6⟩ := erase_invariant d
-  obtain ⟨b1, b2, b3, b4, b5, b6⟩ := erase_invariant g
-  rw [h] at a1 a2 a3 a4 a5 a6
-  exact ⟨a1.trans b1.symm, a2.trans b2.symm, a3.trans b3.symm, a4.trans b4.symm, a5.trans b5.symm,
-    a6.trans b6.symm⟩
+`Option`-ness). The same for response descriptions (`macroAccepts`, `supported`, `inModel`, the
+G17 shape, header names, status). -/
+theorem real_endpoint_codecs_irrelevant :
+    (∀ d g : ReqDesc, d.erase = g.erase →
+      d.macroAccepts = g.macroAccepts ∧ d.testsPass = g.testsPass ∧ d.inModel = g.inModel
+      ∧ d.g17Fields = g.g17Fields
+      ∧ d.headerFields.map (·.header) = g.headerFields.map (·.header) ∧ d.history = g.history)
+    ∧ (∀ d g : RespDesc, d.erase = g.erase →
+      d.macroAccepts = g.macroAccepts ∧ d.supported = g.supported ∧ d.inModel = g.inModel
+      ∧ d.g17Fields = g.g17Fields
+      ∧ d.headerFields.map (·.header) = g.headerFields.map (·.header) ∧ d.status = g.status) := by
+  constructor
+  · intro d g h
+    obtain ⟨a1, a2, a3, a4, a5, a6⟩ := erase_invariant d
+    obtain ⟨b1, b2, b3, b4, b5, b6⟩ := erase_invariant g
+    rw [h] at a1 a2 a3 a4 a5 a6
+    exact ⟨a1.trans b1.symm, a2.trans b2.symm, a3.trans b3.symm, a4.trans b4.symm, a5.trans b5.symm,
+      a6.trans b6.symm⟩
+  · intro d g h
+    obtain ⟨a1, a2, a3, a4, a5, a6⟩ := resp_erase_invariant d
+    obtain ⟨b1, b2, b3, b4, b5, b6⟩ := resp_erase_invariant g
+    rw [h] at a1 a2 a3 a4 a5 a6
+    exact ⟨a1.trans b1.symm, a2.trans b2.symm, a3.trans b3.symm, a4.trans b4.symm, a5.trans b5.symm,
+      a6.trans b6.symm⟩
 
 #print axioms generated_histories_valid
 #print axioms selectPath_spec
